@@ -77,6 +77,10 @@ order a `range` happens to visit the entries in; nothing may depend on it). -/
 def mapSet {κ ν : Type} [BEq κ] (m : List (κ × ν)) (k : κ) (v : ν) : List (κ × ν) :=
   if m.any (fun e => e.1 == k) then m.map (fun e => if e.1 == k then (k, v) else e) else m ++ [(k, v)]
 
+/-- `delete(m, k)`. -/
+def mapErase {κ ν : Type} [BEq κ] (m : List (κ × ν)) (k : κ) : List (κ × ν) :=
+  m.filter fun e => !(e.1 == k)
+
 /-- `make([]T, 0, c)`: panics when the capacity is negative; the capacity itself is not modelled. -/
 def makeCap {α : Type} (c : Int) : Option (List α) := if c < 0 then none else some []
 
